@@ -185,3 +185,85 @@ class ProgramCommandsRoundTrip(Contract):
     ensures = [prop("round-trip-token-for-token", lambda a, old, r: ProgramCommandsRoundTrip._same(r[1], a.program)),
                prop("no-operand-lost-or-duplicated", lambda a, old, r: sum(len(args) for op, args in r[0]) == sum(
                    1 for t in a.program if not isinstance(t, str)))]
+
+
+# -- blends before the first width-bearing operator (CFF2-style charstrings) -------------------------
+
+# (has_width, [argument groups before the operator], operator): a group is ("n", k) = k plain
+# operands or ("b", numBlends) = one blend operator producing numBlends values
+BLEND_SHAPES = [
+    (False, [("b", 1), ("b", 1)], "rmoveto"),
+    (True, [("b", 1), ("b", 1)], "rmoveto"),
+    (False, [("b", 2)], "rmoveto"),
+    (True, [("b", 2)], "rmoveto"),
+    (False, [("n", 1), ("b", 1)], "rmoveto"),
+    (False, [("b", 1), ("n", 1)], "rmoveto"),
+    (True, [("b", 1), ("n", 1)], "rmoveto"),
+    (False, [("b", 1)], "hmoveto"),
+    (True, [("b", 1)], "vmoveto"),
+    (False, [("n", 2), ("b", 2), ("n", 1), ("b", 1)], "hstemhm"),
+    (True, [("n", 2), ("b", 2), ("n", 1), ("b", 1)], "hstem"),
+    (False, [("b", 1), ("b", 2), ("b", 1)], "vstem"),
+    (True, [("b", 2), ("b", 1), ("b", 1)], "vstemhm"),
+]
+
+
+@contract
+class ProgramCommandsBlend(Contract):
+    """programToCommands with blend operators before the first width-bearing operator, 1 and 2
+    regions: a leading width is recognised exactly when there is one (the count of operands
+    behind the blends decides, each blend standing for numBlends operands), every blend becomes
+    one list argument, and commandsToProgram gives back the tokens."""
+    module = "fontTools.cffLib.specializer"
+    qualname = "programToCommands"
+    props = ("C12",)
+    shadow_mode = "real"
+    level = "PF"
+    variants = tuple((i, regions) for i in range(len(BLEND_SHAPES)) for regions in (1, 2))
+
+    def args(self, S, variant):
+        i, regions = variant
+        has_width, groups, op = BLEND_SHAPES[i]
+        prog, k, nvals = [], 0, 0
+
+        def sym():
+            nonlocal k
+            k += 1
+            return S.real("x%d" % k)
+        if has_width:
+            prog.append(sym())
+        for kind, n in groups:
+            if kind == "n":
+                prog += [sym() for _ in range(n)]
+            else:
+                prog += [sym() for _ in range(n * (1 + regions))] + [n, "blend"]
+            nvals += n
+        prog.append(op)
+        prog += [sym(), sym(), "rlineto"]
+        return dict(program=prog, _regions=regions, _has_width=has_width, _nvals=nvals, _op=op)
+
+    def call(self, f, a):
+        cmds = f(list(a.program), getNumRegions=lambda vsindex: a._regions)
+        return cmds, self.mod.commandsToProgram(cmds)
+
+    @staticmethod
+    def _width(a, r):
+        cmds = r[0]
+        first = cmds[0]
+        if a._has_width:
+            ok = first[0] == "" and len(first[1]) == 1 and cmds[1][0] == a._op
+            return ok and eq(first[1][0], a.program[0])
+        return first[0] == a._op
+
+    @staticmethod
+    def _values(a, r):
+        cmds = r[0]
+        opcmd = cmds[1] if a._has_width else cmds[0]
+        n = sum((arg[-1] if isinstance(arg, list) else 1) for arg in opcmd[1])
+        return n == a._nvals
+
+    ensures = [
+        prop("width-recognised-exactly-when-present", lambda a, old, r: ProgramCommandsBlend._width(a, r)),
+        prop("operator-receives-all-its-values", lambda a, old, r: ProgramCommandsBlend._values(a, r)),
+        prop("round-trip-token-for-token", lambda a, old, r: ProgramCommandsRoundTrip._same(r[1], a.program)),
+    ]
